@@ -641,6 +641,10 @@ func c01Alphabet(full bool) []c01Pair {
 		// operands equal to the stored value in another numeric type: nothing changes
 		pUpdate("d", "c", false, bD("_id", i(2)), bD("$max", bD("a", int64(2))), false),
 		pUpdate("d", "c", true, bD("a", i(2)), bD("$min", bD("a", 2.0)), false),
+		// upserts: what the new document takes from the filter does not depend on the order of the operators of a field
+		pUpdate("d", "c", false, bD("a", bD("$gt", i(100), "$eq", i(150))), bD("$set", bD("b", "u1")), true),
+		pUpdate("d", "c", false, bD("a", bD("$eq", i(160), "$gt", i(100))), bD("$set", bD("b", "u2")), true),
+		pUpdate("d", "c", false, bD("$and", bson.A{bD("a", i(170)), bD("b", bD("$in", bson.A{"u3"}))}), bD("$inc", bD("n", i(1))), true),
 		// malformed updates are rejected whether or not a document matches
 		pUpdate("d", "c", false, bD("_id", i(2)), bD("$max", bD("a", i(1)), "$min", bD("a", i(5))), false),
 		pUpdate("d", "c", true, bD("_id", i(77)), bD("$bogus", bD("a", i(1))), false),
